@@ -82,3 +82,80 @@ package durablestream
 //@   ensures [C10.ds.ts.parse] s != "" && timeParseOK(RFC3339NANO(), s) ==> result == timeParse(RFC3339NANO(), s)
 //@   ensures [C10.ds.ts.zero] s == "" || !timeParseOK(RFC3339NANO(), s) ==> result == 0
 //@   ensures [C10.ds.ts.roundtrip] forall t int :: {timeFormat(t, RFC3339NANO())} s == timeFormat(t, RFC3339NANO()) && s != "" ==> sameInstant(result, t)
+
+// ---------------------------------------------------------------- option literals, accessors
+//@ func WithHTTPClient$1
+//@   props C10
+//@   requires c != nil
+//@   ensures [C10.ds.opt.client] c.httpClient == ite(client != nil, client, old(c.httpClient))
+//@ func WithTimeout$1
+//@   props C10
+//@   requires c != nil
+//@   ensures [C10.ds.opt.timeout] c.timeout == ite(d > 0, d, old(c.timeout))
+//@ func WithContentType$1
+//@   props C10
+//@   requires c != nil
+//@   ensures [C10.ds.opt.ctype] c.contentType == ite(contentType != "", contentType, old(c.contentType))
+//@ func WithLogger$1
+//@   props C10
+//@   requires c != nil
+//@   ensures [C10.ds.opt.logger] c.logger == logger
+//@ func (*Store).Close
+//@   props C10
+//@   ensures [C10.ds.close] result == nil
+//@ func (*Store).Path
+//@   props C10
+//@   requires s != nil
+//@   ensures [C10.ds.path] result == s.path
+//@ func (*Store).Client
+//@   props C10
+//@   requires s != nil
+//@   ensures [C10.ds.client] result == s.client
+
+// ---------------------------------------------------------------- constructor
+//@ callback Option(opt, c)
+//@   effect fields c httpClient timeout contentType logger
+//@ func durablestream.NewClient(baseURL, cfg)
+//@   trusted
+//@   effect pure
+//@   ensures result != nil
+//@ func durablestream.(*Client).Create(client, ctx, path, opts)
+//@   trusted
+//@   effect pure
+//@ event createCall := call (*Client).Create record 2:String
+//@ event newClientCall := call NewClient record 0:String
+//@ func defaultConfig
+//@   props C10
+//@   ensures [C10.ds.defaults] result != nil && fresh(result) && result.contentType == "application/json" && result.logger == nil
+// The store is handed out only after the stream was created (idempotent create) under the caller's
+// context; missing arguments and a failed create are reported and no store is returned.
+//@ func NewWithContext
+//@   props C10
+//@   requires ctx != nil
+//@   requires forall k int :: {opts[k]} 0 <= k && k < len(opts) ==> opts[k] != nil
+//@   loop 1 invariant [idx] rangeindex < len(opts) && -1 <= rangeindex
+//@   loop 1 invariant [cfg] cfg != nil && fresh(cfg) && cnt(createCall) == 0
+//@   ensures [C10.ds.new.args] baseURL == "" || streamPath == "" ==> result1 != nil && result0 == nil && cnt(createCall) == 0
+//@   ensures [C10.ds.new.create] baseURL != "" && streamPath != "" ==> cnt(createCall) == 1 && lastarg(createCall, 2, String) == streamPath && lastarg(createCall, 1, Iface) == ctx &&
+//@        cnt(newClientCall) == 1 && lastarg(newClientCall, 0, String) == baseURL
+//@   ensures [C10.ds.new.err] cnt(createCall) == 1 && lastresi(createCall, 1, Iface) != nil ==> result1 != nil && result0 == nil
+//@   ensures [C10.ds.new.ok] result1 == nil ==> result0 != nil && fresh(result0) && result0.path == streamPath && result0.client == lastres(newClientCall) && result0.cfg != nil
+//@ func New
+//@   props C10
+//@   requires forall k int :: {opts[k]} 0 <= k && k < len(opts) ==> opts[k] != nil
+//@   ensures [C10.ds.new.delegates] result1 == nil ==> result0 != nil && result0.path == streamPath
+
+// ---------------------------------------------------------------- option constructors
+// Each returns its option literal (the literal's own contract says what the option does).
+//@ func WithHTTPClient
+//@   props C10
+//@   ensures [opt.value] result != nil
+//@ func WithTimeout
+//@   props C10
+//@   ensures [opt.value] result != nil
+//@ func WithContentType
+//@   props C10
+//@   ensures [opt.value] result != nil
+//@ func WithLogger
+//@   props C10
+//@   ensures [opt.value] result != nil
